@@ -6,7 +6,7 @@ import Py4hwV.Emit.FlatText
   of one net / clock connection), the registers with their full instance paths, the simulator's schedule, and a
   sources-first order of the assigns.  `CertSrc.check` is executable; `Proofs/C01Cert*.lean` prove that it implies the
   hypotheses of the generic correspondence theorems (`SeqCorr`, `CycOK`, …).  Flat designs (Emit/FlatText.lean) and
-  designs with one level of structural hierarchy (Emit/Hier.lean) are instances: their `emit`ted text flattens to
+  designs with structural hierarchy of any depth (Emit/Hier.lean) are instances: their `emit`ted text flattens to
   the certificate's `V.Flat`.
 -/
 namespace FlatM
@@ -48,6 +48,14 @@ inductive GKind where
   | nand2 (a b r t : Nat)                   -- Nand2 = And2 (into `t`, the block's `Mid`) + Not; text: `r = ~(a & b)`
   | nor2 (a b r t : Nat)                    -- Nor2 = Or2 + Not; text: `r = ~(a | b)`
   | xor2 (a b r mid x y m0 m1 m2 m3 : Nat)  -- Xor2 = four Nand2 (`Mid`, `XOut`, `YOut` and the four inner `Mid`s); text `r = a ^ b`
+  /-- Equal (relational.py): Xor2 into `xr`, then Not (one-bit operands: `bits = []`) or BitsLSBF of `xr` + Nor; text
+      `r = (a == b)? 1:0`.  Covered where text and simulator agree: operands of one width, one-bit result
+      (the rest is the known finding C01-equal-irregular) -/
+  | equal (a b r xr mid x y m0 m1 m2 m3 : Nat) (bits ts : List Nat) (nmid : Nat)
+  /-- EqualConstant: Not / Buf (one-bit operand: `bits = []`), else BitsLSBF + Minterm (a Not into `ns[i]` for every 0 bit of
+      `v`, then And); text `r = (a == v)? 1 : 0`.  Covered for `v < 2^width` (the rest is C01-equalconst-oversized), `v < 2^31`,
+      one-bit result -/
+  | eqc (a v r : Nat) (bits ns ts : List Nat)
 deriving Inhabited, Repr
 
 /-- value function of output `i` of a Bits leaf: element `i` of the list the GENERATED propagate() puts -/
@@ -62,6 +70,20 @@ def bitsLeaf (f : Nat → List Nat → Int) (a : Nat) : List Nat → List CLeaf
 
 def nandLeaves (wd : Nat → Nat) (a b r t : Nat) : List CLeaf := [(Kind.and2 a b t).leaf wd, (Kind.not1 t r).leaf wd]
 
+def xorLeaves (wd : Nat → Nat) (a b r mid x y m0 m1 m2 m3 : Nat) : List CLeaf :=
+  nandLeaves wd a b mid m0 ++ (nandLeaves wd a mid x m1 ++ (nandLeaves wd b mid y m2 ++ nandLeaves wd x y r m3))
+
+def norLeaves (wd : Nat → Nat) (ins : List Nat) (r : Nat) (ts : List Nat) (mid : Nat) : List CLeaf :=
+  gateLeaves wd Kind.or2 ins mid ts ++ [(Kind.not1 mid r).leaf wd]
+
+/-- the inputs of Minterm's And: bit `i` itself where `v` has a 1, its complement `ns[i]` where `v` has a 0 -/
+def mintermParts (v : Nat) (bits ns : List Nat) : List Nat :=
+  (List.range bits.length).map fun i => if v.testBit i then bits.getD i 0 else ns.getD i 0
+
+def mintermNots (wd : Nat → Nat) (v : Nat) (bits ns : List Nat) : List CLeaf :=
+  (List.range bits.length).filterMap fun i =>
+    if v.testBit i then none else some ((Kind.not1 (bits.getD i 0) (ns.getD i 0)).leaf wd)
+
 /-- the simulator leaves of a child, in the order the exporter lists them -/
 def GKind.leaves (wd : Nat → Nat) : GKind → List CLeaf
   | .prim p => [p.leaf wd]
@@ -75,6 +97,12 @@ def GKind.leaves (wd : Nat → Nat) : GKind → List CLeaf
   | .nor2 a b r t => [(Kind.or2 a b t).leaf wd, (Kind.not1 t r).leaf wd]
   | .xor2 a b r mid x y m0 m1 m2 m3 =>
       nandLeaves wd a b mid m0 ++ (nandLeaves wd a mid x m1 ++ (nandLeaves wd b mid y m2 ++ nandLeaves wd x y r m3))
+  | .equal a b r xr mid x y m0 m1 m2 m3 bits ts nmid =>
+      xorLeaves wd a b xr mid x y m0 m1 m2 m3 ++
+        (if bits = [] then [(Kind.not1 xr r).leaf wd] else bitsLeaf (bitsFnL (wd xr)) xr bits ++ norLeaves wd bits r ts nmid)
+  | .eqc a v r bits ns ts =>
+      if bits = [] then [if v = 0 then (Kind.not1 a r).leaf wd else (Kind.buf a r).leaf wd]
+      else bitsLeaf (bitsFnL (wd a)) a bits ++ (mintermNots wd v bits ns ++ gateLeaves wd Kind.and2 (mintermParts v bits ns) r ts)
 
 def bitsAssigns (nm : Nat → String) (a : Nat) : List Nat → List (LHS × Expr)
   | [b] => [(.lid (nm b), .id (nm a))]
@@ -91,6 +119,8 @@ def GKind.assigns (wd : Nat → Nat) (nm : Nat → String) : GKind → List (LHS
   | .nand2 a b r _ => [(.lid (nm r), .un "not" (.bin "and" (.id (nm a)) (.id (nm b))))]
   | .nor2 a b r _ => [(.lid (nm r), .un "not" (.bin "or" (.id (nm a)) (.id (nm b))))]
   | .xor2 a b r _ _ _ _ _ _ _ => [(.lid (nm r), .bin "xor" (.id (nm a)) (.id (nm b)))]
+  | .equal a b r _ _ _ _ _ _ _ _ _ _ _ => [(.lid (nm r), .tern (.bin "eq" (.id (nm a)) (.id (nm b))) (lit 1) (lit 0))]
+  | .eqc a v r _ _ _ => [(.lid (nm r), .tern (.bin "eq" (.id (nm a)) (lit v)) (lit 1) (lit 0))]
 
 /-- the nets the assigns drive, aligned with `assigns` -/
 def GKind.outs : GKind → List Nat
@@ -102,6 +132,8 @@ def GKind.outs : GKind → List Nat
   | .nand2 _ _ r _ => [r]
   | .nor2 _ _ r _ => [r]
   | .xor2 _ _ r _ _ _ _ _ _ _ => [r]
+  | .equal _ _ r _ _ _ _ _ _ _ _ _ _ _ => [r]
+  | .eqc _ _ r _ _ _ => [r]
 
 /-- the nets the assigns read -/
 def GKind.ins (wd : Nat → Nat) : GKind → List Nat
@@ -113,6 +145,8 @@ def GKind.ins (wd : Nat → Nat) : GKind → List Nat
   | .nand2 a b _ _ => [a, b]
   | .nor2 a b _ _ => [a, b]
   | .xor2 a b _ _ _ _ _ _ _ _ => [a, b]
+  | .equal a b _ _ _ _ _ _ _ _ _ _ _ _ => [a, b]
+  | .eqc a _ _ _ _ _ => [a]
 
 /-- side conditions (decidable): the covered forms; internal wires sized as the constructors size them -/
 def GKind.okb (wd : Nat → Nat) : GKind → Bool
@@ -130,6 +164,22 @@ def GKind.okb (wd : Nat → Nat) : GKind → Bool
   | .xor2 a b r mid x y m0 m1 m2 m3 =>
       decide (wd mid = wd r) && decide (wd x = wd r) && decide (wd y = wd r) && decide (wd m0 = wd a) && decide (wd m1 = wd a) &&
       decide (wd m2 = wd b) && decide (wd m3 = wd r)
+  | .equal a b r xr mid x y m0 m1 m2 m3 bits ts nmid =>
+      decide (wd a = wd b) && decide (wd r = 1) && decide (wd xr = wd a) &&
+      (decide (wd mid = wd xr) && decide (wd x = wd xr) && decide (wd y = wd xr) && decide (wd m0 = wd a) && decide (wd m1 = wd a) &&
+       decide (wd m2 = wd b) && decide (wd m3 = wd xr)) &&
+      (if bits = [] then decide (wd a = 1)
+       else decide (bits.length = wd xr) && decide bits.Nodup && !bits.contains xr && decide (wd xr - 1 < 2 ^ 32) &&
+         (bits.all fun b => decide (wd b = 1)) &&
+         decide ((bits.length = 1 ∧ ts = []) ∨ ts.length + 2 = bits.length) && (ts.all fun t => decide (wd nmid ≤ wd t)) &&
+         decide (1 ≤ wd nmid))
+  | .eqc a v r bits ns ts =>
+      decide (v < 2 ^ 31) && decide (v < 2 ^ wd a) && decide (wd r = 1) &&
+      (if bits = [] then decide (wd a = 1)
+       else decide (bits.length = wd a) && decide bits.Nodup && !bits.contains a && decide (wd a - 1 < 2 ^ 32) &&
+         (bits.all fun b => decide (wd b = 1)) &&
+         ((List.range bits.length).all fun i => v.testBit i || decide (wd (ns.getD i 0) = 1)) &&
+         decide ((bits.length = 1 ∧ ts = []) ∨ ts.length + 2 = bits.length) && (ts.all fun t => decide (1 ≤ wd t)))
 
 /-- the condition on the wire values under which the child's text is claimed to agree: the divisor of Div / Mod is not 0 -/
 def GKind.good (V : Nat → Nat) : GKind → Prop
